@@ -146,6 +146,9 @@ impl Property for C05 {
         ]
         .boxed()
     }
+    fn concurrent() -> bool {
+        true
+    }
     fn check(spec: &Spec, _env: &mut Env) -> Outcome {
         let mut o = Outcome::new();
         match spec {
